@@ -75,6 +75,39 @@ m = re.search(r'#\[cfg\(any\(unix, windows\)\)\]\s*pub fn is_semantic_literal\(&
 if not m: fail("is_semantic_literal")
 sem_lits = re.findall(r'"([^"]*)"', m.group(1))
 
+# straight-line integer functions, translated (tools/rs2lean.py): the depth arithmetic of walks and the checked word operations
+import os
+sys.path.insert(0, os.path.dirname(os.path.abspath(__file__)))
+import rs2lean
+beh = read("walk/behavior.rs")
+wmod = read("walk/mod.rs")
+opsrs = read("token/variance/ops.rs")
+FIELDS = {"min": "self_min", "extent": "self_extent", "0": "self_0"}
+translated = []
+try:
+    translated.append(rs2lean.translate(beh, r"impl DepthMinMax \{", "max", "depthMinMaxMax", "Nat", fields=FIELDS,
+                                        params=[("self_min", "Nat"), ("self_extent", "Nat")]))
+    translated.append(rs2lean.translate(beh, r"impl DepthMin \{", "min_at_pivot", "minAtPivot", "Nat", fields=FIELDS,
+                                        params=[("self_0", "Nat"), ("pivot", "Nat")]))
+    translated.append(rs2lean.translate(beh, r"impl DepthMax \{", "max_at_pivot", "maxAtPivot", "Nat", fields=FIELDS,
+                                        params=[("self_0", "Nat"), ("pivot", "Nat")]))
+    translated.append(rs2lean.translate(beh, r"impl DepthMinMax \{", "min_max_at_pivot", "minMaxAtPivot", "Nat × Nat", fields=FIELDS,
+                                        calls={"max": ("depthMinMaxMax", ["min", "extent"])},
+                                        params=[("self_min", "Nat"), ("self_extent", "Nat"), ("pivot", "Nat")]))
+    translated.append(rs2lean.translate(wmod, r"impl JoinAndGetDepth for Path \{", "join_and_get_depth", "joinDepth", "Nat",
+                                        opaque={"path.as_ref()": "DROP", "self.join(path)": "DROP",
+                                                "joined.components().count()": ("joinedCount", "Nat"),
+                                                "self.components().count()": ("selfCount", "Nat"),
+                                                "path.is_absolute()": ("pathIsAbsolute", "Bool"), "joined": ("()", None)},
+                                        project=1, params=[("pathIsAbsolute", "Bool"), ("joinedCount", "Nat"), ("selfCount", "Nat")]))
+    for ty, nm in (("usize", "Usize"), ("NonZeroUsize", "NonZero")):
+        translated.append(rs2lean.translate(opsrs, r"impl Conjunction for %s \{" % ty, "conjunction", "conjunction" + nm, "Nat",
+                                            fields={"": "self_v"}, params=[("self_v", "Nat"), ("rhs", "Nat")]))
+        translated.append(rs2lean.translate(opsrs, r"impl Product for %s \{" % ty, "product", "product" + nm, "Nat",
+                                            fields={"": "self_v"}, params=[("self_v", "Nat"), ("rhs", "Nat")]))
+except rs2lean.Untranslatable as ex:
+    fail("rs2lean: %s" % ex)
+
 def lchar(c):
     c = c[-1] if c.startswith("\\") and len(c) == 2 and c[1] != "\\" else ("\\" if c in ("\\\\",) else c)
     return "'\\\\'" if c == "\\" else "'\\''" if c == "'" else f"'{c}'"
@@ -100,6 +133,7 @@ out.append("def neverExpression : String := %s" % lstr(never_expr))
 out.append("def separatorClassExpression : String := %s" % lstr(sep_class))
 out.append("def rootSeparatorExpression : String := %s" % lstr(root_sep))
 out.append("def semanticLiterals : List String := [%s]" % ", ".join(lstr(x) for x in sem_lits))
+out += ["", "/-! straight-line integer functions translated from the source by tools/rs2lean.py -/", rs2lean.PRELUDE] + translated
 out += ["", "-- obligations re-checked against the code as it is now",
  "theorem meta_eq_escapes : metaChars.all (literalEscapes.contains ·) && literalEscapes.all (metaChars.contains ·) = true := by decide",
  "theorem stop_is_meta_plus_sep_bs : literalStopSet.all (fun c => c == '/' || c == '\\\\' || metaChars.contains c) && metaChars.all (literalStopSet.contains ·) && literalStopSet.contains '/' && literalStopSet.contains '\\\\' = true := by decide",
